@@ -16,6 +16,7 @@ import ScyllaVerif.Proofs.Ring
 import ScyllaVerif.Proofs.Replicas
 import ScyllaVerif.Proofs.Plan
 import ScyllaVerif.Props.C04
+import ScyllaVerif.Drive.C05
 
 namespace ScyllaVerif.Props.C05
 open ScyllaVerif.Ring ScyllaVerif.Replicas ScyllaVerif.Plan
@@ -1535,6 +1536,243 @@ theorem plan_live_before_down {cl : Cluster} (hwf : WF cl) (cfg : Config) (rq : 
   obtain ⟨_, hn, hp⟩ := (class_lt8_iff hwf cfg rq b).mp hb
   have := (class_le5_iff hwf cfg rq b).mpr ⟨hl, hn, hp⟩
   exact ((class_le5_iff hwf cfg rq a).mp (by omega)).1
+
+/-! ### which targets carry a shard; the LWT order against C04's ring -/
+
+private theorem take3_sharded (cl : Cluster) (cfg : Config) (rq : Request) (ρ : RhoFb) :
+    ∀ t ∈ ((fallbackGroups cl cfg rq ρ).take 3).flatten, t.2.isSome = true := by
+  intro t ht
+  have hrt : ∀ ts crit lwt shuf, t ∈ replicaTargets cl ts crit lwt shuf → t.2.isSome = true := by
+    intro ts crit lwt shuf h
+    rw [((mem_replicaTargets cl ts crit lwt shuf t).mp h).1]; rfl
+  unfold fallbackGroups at ht
+  simp only [List.take_succ_cons, List.take_zero, List.flatten_cons, List.flatten_nil, List.append_nil,
+    List.mem_append] at ht
+  rcases ht with ht | ht | ht
+  · split at ht
+    · exact hrt _ _ _ _ ht
+    · simp at ht
+  · split at ht
+    · exact hrt _ _ _ _ ht
+    · simp at ht
+  · split at ht
+    · split at ht
+      · exact hrt _ _ _ _ ht
+      · simp at ht
+    · simp at ht
+
+/-- **A target of `fallback` carries a shard exactly when its node is a live replica of the token (by the placement
+rule of C04) that the datacenter rule permits.** -/
+theorem fallback_shard_iff {cl : Cluster} (hwf : WF cl) (cfg : Config) (rq : Request) (ρ : RhoFb) {t : Target}
+    (ht : t ∈ fallback cl cfg rq ρ) :
+    t.2.isSome = true ↔ (LiveReplica cl cfg rq t.1 ∧ Permitted cfg rq t.1) := by
+  rw [← class_le2_iff hwf]
+  constructor
+  · intro hs
+    obtain ⟨bp, hbp, h1, h2⟩ := mem_fallback_groups ht
+    unfold classOf groupPreds
+    rw [(classIdx8_facts _ _ _ _ _ _ _ _ _ _ _ _ _ _ _ _ t.1).2.2.1]
+    have hb : bp.1 = true := by
+      cases hb : bp.1 with
+      | true => rfl
+      | false => rw [h1, hb] at hs; simp [mk, shardless] at hs
+    simp only [groupPreds, List.mem_cons, List.not_mem_nil, or_false] at hbp
+    rcases hbp with rfl | rfl | rfl | rfl | rfl | rfl | rfl | rfl
+    · exact Or.inl h2
+    · exact Or.inr (Or.inl h2)
+    · exact Or.inr (Or.inr h2)
+    all_goals cases hb
+  · intro hc
+    -- the sharded copy of the node is in one of the three replica groups, hence earlier in the chain
+    unfold classOf groupPreds at hc
+    rw [(classIdx8_facts _ _ _ _ _ _ _ _ _ _ _ _ _ _ _ _ t.1).2.2.1] at hc
+    have hin : mk cl true t.1 ∈ (fallbackGroups cl cfg rq ρ).flatten := by
+      rw [describes_mem (groups_described cl cfg rq ρ)]
+      rcases hc with hc | hc | hc
+      · exact ⟨_, by simp only [groupPreds, List.mem_cons]; exact Or.inl rfl, by rw [mk_fst], by rw [mk_fst]; exact hc⟩
+      · exact ⟨_, by simp only [groupPreds, List.mem_cons]; exact Or.inr (Or.inl rfl), by rw [mk_fst],
+          by rw [mk_fst]; exact hc⟩
+      · exact ⟨_, by simp only [groupPreds, List.mem_cons]; exact Or.inr (Or.inr (Or.inl rfl)), by rw [mk_fst],
+          by rw [mk_fst]; exact hc⟩
+    rw [← List.take_append_drop 3 (fallbackGroups cl cfg rq ρ), List.flatten_append, List.mem_append] at hin
+    have hinR : mk cl true t.1 ∈ ((fallbackGroups cl cfg rq ρ).take 3).flatten := by
+      rcases hin with h | h
+      · exact h
+      · have := drop3_shardless cl cfg rq ρ _ h
+        simp [mk, sharded] at this
+    rw [fallback_eq_dedup, ← List.take_append_drop 3 (fallbackGroups cl cfg rq ρ), List.flatten_append] at ht
+    obtain ⟨seen', hs', happ⟩ := dedupFrom_append []
+      ((fallbackGroups cl cfg rq ρ).take 3).flatten ((fallbackGroups cl cfg rq ρ).drop 3).flatten
+    rw [happ, List.mem_append] at ht
+    rcases ht with ht | ht
+    · exact take3_sharded cl cfg rq ρ t (mem_dedupFrom ht).1
+    · exfalso
+      apply (mem_dedupFrom ht).2
+      rw [hs']
+      exact Or.inr (List.mem_map.mpr ⟨_, hinR, by rw [mk_fst]⟩)
+
+/-- **A target of a plan carries a shard (is there "as a replica") exactly when its node is a live replica of the
+token by the placement rule of C04 that the datacenter rule permits** - so the shard-bearing subsequence that
+`lwt_deterministic` talks about is the subsequence of the live permitted replicas. -/
+theorem plan_shard_iff {cl : Cluster} (hwf : WF cl) (cfg : Config) (rq : Request) (ρp : RhoPick) (ρf : RhoFb) {t : Target}
+    (ht : t ∈ plan cl cfg rq ρp ρf) :
+    t.2.isSome = true ↔ (LiveReplica cl cfg rq t.1 ∧ Permitted cfg rq t.1) :=
+  fallback_shard_iff hwf cfg rq ρf ((plan_mem_iff hwf cfg rq ρp ρf t).mp ht)
+
+private theorem distinct_eq_uniq {α : Type} [DecidableEq α] (l : List α) : C04.distinct l = uniq l := by
+  induction l with
+  | nil => rfl
+  | cons a l ih =>
+    unfold C04.distinct uniq
+    rw [uniqFrom, if_neg (by simp), ih, uniqFrom_cons_seen]
+    rfl
+
+/-- **LWT, ring order, against C04's ring**: each replica list of an LWT request is a subsequence of
+`C04.nodesClockwise ring token` - the distinct nodes met walking the ring clockwise from the token (owners of tokens
+`≥ token` in ascending order, then the rest), the very list the placement rule of C04 is stated on. -/
+theorem lwt_ring_order_clockwise {cl : Cluster} (hwf : WF cl) {cfg : Config} {rq : Request} {ts : Strategy × Int}
+    (hts : tokenWithStrategy cl cfg rq = some ts) (crit : Pref) :
+    (filteredReplicas cl ts crit true).Sublist (C04.nodesClockwise cl.loc.ring ts.2) := by
+  obtain ⟨r, S, hs, hloc⟩ := hwf.locator
+  have h := lwt_ring_order hwf hts crit
+  rw [hloc] at h ⊢
+  unfold C04.nodesClockwise
+  rw [distinct_eq_uniq, ← C04.ringRange_eq_clockwise hs]
+  exact h
+
+/-- **LWT, the whole clause**: for a request routed as LWT and every random choice, the replicas of the plan - its
+targets whose node is a live permitted replica by the placement rule - are the first-occurrence de-duplication of
+three lists (preferred rack, preferred datacenter, everywhere), each a clockwise subsequence of C04's ring walk. -/
+theorem lwt_plan_replicas {cl : Cluster} (hwf : WF cl) (cfg : Config) (rq : Request) (hlwt : rq.routeAsLwt = true)
+    (ρp : RhoPick) (ρf : RhoFb) :
+    (plan cl cfg rq ρp ρf).filter (fun t => decide (classOf cl cfg rq t.1 ≤ 2)) = uniqueBy (lwtReplicas cl cfg rq) := by
+  rw [← lwt_deterministic hwf cfg rq hlwt ρp ρf]
+  apply List.filter_congr
+  intro t ht
+  rw [Bool.eq_iff_iff, decide_eq_true_eq, class_le2_iff hwf, plan_shard_iff hwf cfg rq ρp ρf ht]
+
+/-! ### the clusters of the differential run are well-formed -/
+
+private theorem eraseDups_length_le (l : List Nat) : l.eraseDups.length ≤ l.length := by
+  match l with
+  | [] => simp
+  | a :: as =>
+    rw [List.eraseDups_cons]
+    have h1 := eraseDups_length_le (as.filter (fun b => !b == a))
+    have h2 := List.length_filter_le (fun b => !b == a) as
+    simp only [List.length_cons]; omega
+termination_by l.length
+decreasing_by
+  have := List.length_filter_le (fun b => !b == a) as
+  simp only [List.length_cons]; omega
+
+private theorem nodup_of_eraseDups_length (l : List Nat) (h : l.eraseDups.length = l.length) : l.Nodup := by
+  induction l with
+  | nil => exact List.nodup_nil
+  | cons a as ih =>
+    rw [List.eraseDups_cons] at h
+    simp only [List.length_cons, Nat.add_right_cancel_iff] at h
+    have h1 := eraseDups_length_le (as.filter (fun b => !b == a))
+    have h2 := List.length_filter_le (fun b => !b == a) as
+    have hall := List.length_filter_eq_length_iff.mp (show (as.filter (fun b => !b == a)).length = as.length by omega)
+    rw [List.filter_eq_self.mpr hall] at h
+    refine List.nodup_cons.mpr ⟨?_, ih h⟩
+    intro hmem
+    have := hall a hmem
+    simp at this
+
+private theorem mapM_option_mem {α β : Type} (f : α → Option β) (l : List α) (l' : List β) (h : l.mapM f = some l') :
+    ∀ y ∈ l', ∃ x ∈ l, f x = some y := by
+  induction l generalizing l' with
+  | nil =>
+    simp only [List.mapM_nil] at h
+    cases h; simp
+  | cons a l ih =>
+    rw [List.mapM_cons] at h
+    cases hfa : f a with
+    | none => rw [hfa] at h; cases h
+    | some b =>
+      rw [hfa] at h
+      cases hl : l.mapM f with
+      | none => rw [hl] at h; cases h
+      | some bs =>
+        rw [hl] at h
+        cases h
+        intro y hy
+        rcases List.mem_cons.mp hy with rfl | hy
+        · exact ⟨a, List.mem_cons_self .., hfa⟩
+        · obtain ⟨x, hx, hfx⟩ := ih bs hl y hy
+          exact ⟨x, List.mem_cons_of_mem _ hx, hfx⟩
+
+open ScyllaVerif.Drive.Topology in
+private theorem parseStrategy_nts_keys {w : String} {repf : List (Nat × Nat)} (h : parseStrategy w = some (.nts repf)) :
+    (repf.map (·.1)).Nodup := by
+  unfold parseStrategy at h
+  split at h
+  · cases h
+  · split at h
+    · cases h
+    · split at h
+      · cases hm : (w.drop 1).toString.toNat? with
+        | none => rw [hm] at h; cases h
+        | some n => rw [hm] at h; cases h
+      · split at h
+        · cases h; exact List.nodup_nil
+        · split at h
+          · split at h
+            · rename_i repf' _
+              split at h
+              · rename_i hlen
+                cases h
+                exact nodup_of_eraseDups_length _ (by simpa using hlen)
+              · cases h
+            · cases h
+          · cases h
+
+open ScyllaVerif.Drive.Topology ScyllaVerif.Drive.C05 in
+/-- **Every cluster the differential run builds satisfies `WF`**: whatever topology and keyspace list the case-line
+parsers accept (`parseTopologyEx` rejects repeated host ids, `parseStrategy` repeated NTS datacenter keys), the model
+cluster `mkCluster` has a locator built from a sorted ring (`C04.ring_sorted`), NTS maps with distinct keys and
+pairwise distinct host ids in the ring - so the theorems apply to each of them. -/
+theorem mkCluster_WF {topo kss : String} {ps : List (Peer × String)} {ks : List Strategy} (tok : Option Int)
+    (h1 : parseTopologyEx topo = some ps) (h2 : parseStrategies kss = some ks) : WF (mkCluster ps ks tok) := by
+  -- host ids of the accepted peers are pairwise distinct
+  have hids : (ps.map (·.1.node.id)).Nodup := by
+    unfold parseTopologyEx at h1
+    split at h1
+    · cases h1; exact List.nodup_nil
+    · split at h1
+      · cases h1
+      · split at h1
+        · rename_i hc
+          cases h1
+          simp only [Bool.and_eq_true, beq_iff_eq] at hc
+          exact nodup_of_eraseDups_length _ hc.1
+        · cases h1
+  refine ⟨⟨mkRing (Topology.entries (ps.map (·.1))), ks, C04.ring_sorted _, rfl⟩, ?_, ?_⟩
+  · intro repf hmem
+    unfold parseStrategies at h2
+    split at h2
+    · cases h2; simp at hmem
+    · obtain ⟨w, _, hw⟩ := mapM_option_mem _ _ _ h2 _ hmem
+      exact parseStrategy_nts_keys hw
+  · -- ring nodes are nodes of peers; peers have distinct ids
+    have hnode : ∀ a ∈ allNodes (mkCluster ps ks tok), ∃ p ∈ ps, p.1.node = a := by
+      intro a ha
+      unfold allNodes uniqueNodes at ha
+      rw [mem_uniq] at ha
+      obtain ⟨e, he, rfl⟩ := List.mem_map.mp ha
+      have he' : e ∈ Topology.entries (ps.map (·.1)) := (mkRing_perm _).mem_iff.mp he
+      unfold Topology.entries at he'
+      obtain ⟨p, hp, hpe⟩ := List.mem_flatMap.mp he'
+      obtain ⟨tk, _, rfl⟩ := List.mem_map.mp hpe
+      obtain ⟨q, hq, rfl⟩ := List.mem_map.mp hp
+      exact ⟨q, hq, rfl⟩
+    intro a ha b hb hab
+    obtain ⟨p, hp, rfl⟩ := hnode a ha
+    obtain ⟨q, hq, rfl⟩ := hnode b hb
+    have : p = q := List.inj_on_of_nodup_map hids hp hq hab
+    rw [this]
 
 /-! ### non-vacuity: the suite's 7-node, 2-datacenter ring with vnodes; node 2 down, node 7 disabled -/
 
